@@ -31,6 +31,7 @@ type SpecEnv struct {
 	tolerant bool
 	atLoopHeader bool // the program point is a loop header: its phis are the loop variables
 	paramsAtEntry bool
+	loadEntry []bool // per load: read from an entry heap ("@0" version)
 	loads []Term // heap values of reference/slice sort read while evaluating (outside quantifiers)
 	toleranceUsed bool
 	anyBlock bool
@@ -684,8 +685,9 @@ func (env *SpecEnv) field(base SVal, name string) (SVal, error) {
 			return SVal{T: Term{sub, SRef}, Typ: types.NewPointer(f.Type())}, nil
 		}
 		h, s := u.fieldHeap(t, idx)
-		r := Term{sel(ft.heapTerm(env.state(), h), base.T.S), s}
-		env.noteLoad(r)
+		ht := ft.heapTerm(env.state(), h)
+		r := Term{sel(ht, base.T.S), s}
+		env.noteLoadFrom(r, ht)
 		return SVal{T: r, Typ: f.Type()}, nil
 	}
 	return SVal{T: Term{sx("f$"+si.name+"$"+si.fields[idx].name, base.T.S), si.fields[idx].sort}, Typ: f.Type()}, nil
@@ -709,8 +711,9 @@ func (env *SpecEnv) index(base, idx SVal) (SVal, error) {
 		switch bt := base.Typ.Underlying().(type) {
 		case *types.Slice:
 			h, es := u.elemHeap(bt.Elem())
-			t := sel(sel(ft.heapTerm(env.state(), h), sx("sbase", base.T.S)), sx("ix", base.T.S, idx.T.S))
-			env.noteLoad(Term{t, es})
+			ht := ft.heapTerm(env.state(), h)
+			t := sel(sel(ht, sx("sbase", base.T.S)), sx("ix", base.T.S, idx.T.S))
+			env.noteLoadFrom(Term{t, es}, ht)
 			return SVal{T: Term{t, es}, Typ: bt.Elem()}, nil
 		case *types.Map:
 			_, val, _, vs := u.mapHeaps(bt)
@@ -1297,12 +1300,17 @@ func (env *SpecEnv) resolveSpecSort(s string) (Sort, error) {
 	return env.ft.e.u.sortOf(t), nil
 }
 
-func (env *SpecEnv) noteLoad(t Term) {
+func (env *SpecEnv) noteLoad(t Term) { env.noteLoadFrom(t, "") }
+
+// noteLoadFrom: a ground reference read by a postcondition, and the heap
+// version it was read from (values of an entry heap were allocated at entry).
+func (env *SpecEnv) noteLoadFrom(t Term, heapTerm string) {
 	if env.ft.inQuant > 0 || env.inOld {
 		return
 	}
 	if t.Sort == SRef || t.Sort == SSlice {
 		env.loads = append(env.loads, t)
+		env.loadEntry = append(env.loadEntry, strings.HasSuffix(heapTerm, "@0"))
 	}
 }
 
